@@ -21,3 +21,4 @@ import FpgoVerif.Props.C04
 #print axioms FpgoVerif.C04.C04_effects_inventory
 #print axioms FpgoVerif.C04.C04_ifaceRemove_frame
 #print axioms FpgoVerif.C04.C04_ifaceRemove_content_partial
+#print axioms FpgoVerif.C04.C04_http_instances_independent
